@@ -20,7 +20,7 @@ META = {
                     "file formats are contracts of the stub's write/Read pair: graphml, graphmlz and pickle return every attribute unchanged; GML "
                     "restricts attribute keys to alphanumeric characters (igraph drops the other characters on writing)",
                     "exact reals for weights (the text formats' decimal rendering of floats is outside)"],
-    "outside": ["igraph's C readers/writers and the bytes on disk", "SpatialNetwork/GeoNetwork/ClimateNetwork save and Load (grid files)",
+    "outside": ["igraph's C readers/writers and the bytes on disk", "the contents of grid files (Grid.save/Load are an identity stub); ClimateNetwork save/Load",
                 "N = 1 (link density 0/0)", "multigraph inputs (an edge listed twice in the same direction)"],
 }
 NW = "src/pyunicorn/core/network.py"
@@ -130,6 +130,17 @@ class StubGraph:
 
     def get_edgelist(self):
         return list(self.edges)
+
+    def get_adjacency(self, type=2):
+        M = [[0] * self.n for _ in range(self.n)]
+        for a_, b_ in self.edges:
+            M[a_][b_] = 1
+            if not self.directed:
+                M[b_][a_] = 1
+
+        class _M:
+            data = M
+        return _M
 
     def simplify(self, *a, **k):
         seen, keep = set(), []
@@ -363,10 +374,17 @@ def ob_adjacency(name, n, directed, sparse):
     return finish(name, hyps, ex, paths, funcs, bound, "C05|Network via adjacency", witfn)
 
 
-def ob_save_load(name, n, G, directed, fmt):
-    """save to / Load from an attribute-preserving format: node weights (+ total, mean), adjacency and link attributes survive"""
-    from pyunicorn.core.network import Network
-    funcs = [f"{NW} Network.save/Load/FromIGraph/link_attribute/set_link_attribute"]
+def ob_save_load(name, n, G, directed, fmt, cls="Network"):
+    """save to / Load from an attribute-preserving format: node weights (+ total, mean), adjacency and link attributes survive
+    (Network, and SpatialNetwork / GeoNetwork with the grid file replaced by an identity stub)"""
+    from pyunicorn.core import network as nm_, spatial_network as sm_, geo_network as gm_
+    from pyunicorn.core import Grid, GeoGrid
+    Network = {"Network": nm_.Network, "SpatialNetwork": sm_.SpatialNetwork, "GeoNetwork": gm_.GeoNetwork}[cls]
+    funcs = [f"{NW} Network.save/Load/FromIGraph/link_attribute/set_link_attribute"] + \
+        ([] if cls == "Network" else [f"src/pyunicorn/core/{'spatial' if cls == 'SpatialNetwork' else 'geo'}_network.py {cls}.save/Load"])
+    grids = {}
+    mods_ = [nm_, sm_, gm_]
+    patch_ = {m.__name__: {"igraph": IGraphStub} for m in mods_}
     pairs = [(i, j) for i in range(n) for j in range(n) if G[i][j] and (directed or i < j)]
     bound = f"{fmt}: {'directed' if directed else 'undirected'} topology {G}, symbolic node weights and link attribute"
     w, hyps = sym_weights(n)
@@ -375,10 +393,21 @@ def ob_save_load(name, n, G, directed, fmt):
     def harness(ex):
         out = []
         FILES.clear()
-        with pe.patched(mods(), patches()):
+        saved = (Grid.save, Grid.Load, GeoGrid.save, GeoGrid.Load)
+        Grid.save = GeoGrid.save = lambda self_, filename: grids.__setitem__(str(filename), self_)
+        Grid.Load = GeoGrid.Load = staticmethod(lambda filename: grids[str(filename)])
+        with pe.patched(mods_, patch_):
             try:
                 A = np.array(G, dtype=int)
-                net = Network(adjacency=A, directed=directed, node_weights=SymNd(np.array([SV(x) for x in w], dtype=object)), silence_level=3)
+                if cls == "Network":
+                    net = Network(adjacency=A, directed=directed, node_weights=SymNd(np.array([SV(x) for x in w], dtype=object)), silence_level=3)
+                else:
+                    if cls == "SpatialNetwork":
+                        grid = Grid(np.arange(2.0), np.array([np.arange(n, dtype=float), np.arange(n, dtype=float) * 2]), 3)
+                    else:
+                        grid = GeoGrid(np.arange(2.0), np.linspace(-30, 30, n), np.linspace(0, 40, n), 3)
+                    net = Network(grid=grid, adjacency=A, directed=directed, silence_level=3)
+                    net.node_weights = SymNd(np.array([SV(x) for x in w], dtype=object))
                 W = np.zeros((n, n), dtype=object)
                 for (i, j), v in la.items():
                     W[i, j] = SV(v)
@@ -386,10 +415,13 @@ def ob_save_load(name, n, G, directed, fmt):
                         W[j, i] = SV(v)
                 if pairs:
                     net.set_link_attribute("la", SymNd(W))
-                net.save("net." + fmt, fileformat=fmt)
-                back = Network.Load("net." + fmt, fileformat=fmt, silence_level=3)
+                fname = "net." + fmt if cls == "Network" else ("net." + fmt, "grid.file")
+                net.save(fname, fileformat=fmt)
+                back = Network.Load(fname, fileformat=fmt, silence_level=3)
             except (IndexError, ValueError, TypeError, ZeroDivisionError, AttributeError, KeyError) as e:
                 return [(f"save/Load raises {type(e).__name__}", True)]
+            finally:
+                Grid.save, Grid.Load, GeoGrid.save, GeoGrid.Load = saved[0], staticmethod(saved[1]), saved[2], staticmethod(saved[3])
             out += differences(observe(back, n), expect_from_pairs(n, pairs, directed, w), fmt)
             if pairs:
                 try:
@@ -408,9 +440,9 @@ def ob_save_load(name, n, G, directed, fmt):
         return result(name, INCONCLUSIVE, reason=f"unsupported: {e}", functions=funcs, bound=bound)
 
     def witfn(m):
-        return {"kind": "save_load", "fmt": fmt, "n": n, "directed": directed, "G": G, "w": [sx.model_value(m, x) for x in w],
+        return {"kind": "save_load", "cls": cls, "fmt": fmt, "n": n, "directed": directed, "G": G, "w": [sx.model_value(m, x) for x in w],
                 "la": {f"{i},{j}": sx.model_value(m, v) for (i, j), v in la.items()}}
-    return finish(name, hyps, ex, paths, funcs, bound, f"C05|Network.save/Load|{fmt}", witfn)
+    return finish(name, hyps, ex, paths, funcs, bound, f"C05|{cls}.save/Load|{fmt}", witfn)
 
 
 def prepare(tier):
@@ -437,6 +469,9 @@ def obligations(tier):
     for fmt in ("graphml", "graphmlz", "pickle", "gml"):
         for k, (G, d) in enumerate(tops):
             obs.append((ob_save_load, dict(name=f"C05|save/Load|{fmt}|topology#{k}", n=len(G), G=G, directed=d, fmt=fmt), 900))
+        for cls in ("SpatialNetwork", "GeoNetwork"):
+            for k, (G, d) in enumerate(tops[:4] if not th else tops):
+                obs.append((ob_save_load, dict(name=f"C05|{cls} save/Load|{fmt}|topology#{k}", n=len(G), G=G, directed=d, fmt=fmt, cls=cls), 900))
     return obs
 
 
@@ -501,7 +536,20 @@ def replay(w):
             G = np.array(w["G"], dtype=int)
             pairs = [(i, j) for i in range(n) for j in range(n) if G[i, j]]
             A, nl, ld = ref(pairs, w["directed"])
-            net = Network(adjacency=G, directed=w["directed"], node_weights=wt, silence_level=3)
+            cls = w.get("cls", "Network")
+            if cls == "Network":
+                net = Network(adjacency=G, directed=w["directed"], node_weights=wt, silence_level=3)
+                Cls = Network
+            else:
+                from pyunicorn.core import SpatialNetwork, GeoNetwork, Grid, GeoGrid
+                if cls == "SpatialNetwork":
+                    grid = Grid(np.arange(2.0), np.array([np.arange(n, dtype=float), np.arange(n, dtype=float) * 2]), 3)
+                    Cls = SpatialNetwork
+                else:
+                    grid = GeoGrid(np.arange(2.0), np.linspace(-30, 30, n), np.linspace(0, 40, n), 3)
+                    Cls = GeoNetwork
+                net = Cls(grid=grid, adjacency=G, directed=w["directed"], silence_level=3)
+                net.node_weights = wt
             W = np.zeros((n, n))
             for key, v in w["la"].items():
                 i, j = map(int, key.split(","))
@@ -512,8 +560,13 @@ def replay(w):
                 net.set_link_attribute("la", W)
             d = tempfile.mkdtemp(prefix="c05-")
             fn = os.path.join(d, "net." + w["fmt"])
-            net.save(fn, fileformat=w["fmt"])
-            back = Network.Load(fn, fileformat=w["fmt"], silence_level=3)
+            if cls != "Network":
+                fn = (fn, os.path.join(d, "grid.file"))
+            import contextlib
+            import io
+            with contextlib.redirect_stdout(io.StringIO()):
+                net.save(fn, fileformat=w["fmt"])
+                back = Cls.Load(fn, fileformat=w["fmt"], silence_level=3)
             probs = compare(back, A, nl, ld, w["fmt"])
             if pairs:
                 try:
